@@ -31,6 +31,9 @@ inline bool is_filler(const Word& w) { Word f = filler(); return !memcmp(&w, &f,
 inline void put(uint8_t* prog, int slot, const Word& w) { uint8_t* p = prog + 128 + 8 * slot; p[0] = w.op; p[1] = w.dst; p[2] = w.src; p[3] = w.mod; memcpy(p + 4, &w.imm, 4); }
 inline Word get(const uint8_t* prog, int slot) { const uint8_t* p = prog + 128 + 8 * slot; Word w{ p[0], p[1], p[2], p[3], 0 }; memcpy(&w.imm, p + 4, 4); return w; }
 inline int prog_size(int version) { return version == 2 ? RANDOMX_PROGRAM_SIZE_V2 : RANDOMX_PROGRAM_SIZE_V1; }
+// the part of the 384-word buffer a v1 program must ignore mirrors the program's own first words instead of holding fillers (a translator that looks past the
+// end of the program must not get away with it; in a real hash that part holds generator output) - DESIGN.md 8.12, lesson 9
+inline void mirror_tail(uint8_t* prog, int version) { if (version != 1) return; for (int s = RANDOMX_PROGRAM_SIZE_V1; s < RANDOMX_PROGRAM_MAX_SIZE; ++s) memcpy(prog + 128 + 8 * s, prog + 128 + 8 * (s - RANDOMX_PROGRAM_SIZE_V1), 8); }
 inline void blank(const Env& e, CaseSpec& c) { memcpy(c.prog, e.cfg[c.cfg], 128); for (int i = 0; i < RANDOMX_PROGRAM_MAX_SIZE; ++i) put(c.prog, i, filler()); }
 inline void set_combo(CaseSpec& c, unsigned k, bool light_ok) {   // 128 combinations of aes x mode x cfg x scratchpad x entry rounding mode
 	k %= 128; c.aes = k & 1; c.mode = (k >> 1) & 1; c.cfg = (k >> 2) & 3; c.sp = (k >> 4) & 1; c.rm = (k >> 5) & 3;
@@ -77,6 +80,7 @@ struct FamA {
 	void build(const Env& e, CaseSpec& c, int packing, uint64_t k) const {
 		blank(e, c); uint64_t s = (uint64_t)prog_size(c.version);
 		for (uint64_t i = 0; i < s && k * s + i < N; ++i) put(c.prog, (int)i, word(packing, k * s + i));
+		mirror_tail(c.prog, c.version);
 	}
 };
 
@@ -120,6 +124,7 @@ struct FamB {
 		c.version = 1 + (int)(job & 1); uint64_t r = job >> 1; int pos = (int)(r % 3); uint64_t s = r / 3;
 		blank(e, c); int S = prog_size(c.version); int at = pos == 0 ? 0 : pos == 1 ? S / 2 - 1 : S - L;
 		for (int i = L - 1; i >= 0; --i) { put(c.prog, at + i, alpha[s % alpha.size()]); s /= alpha.size(); }
+		mirror_tail(c.prog, c.version);
 	}
 };
 
@@ -173,6 +178,19 @@ inline std::vector<NamedProg> family_c() {
 			out.push_back(p);
 		}
 	}
+	// entry at a branch target: r := 0; r ^= 0xFF << b (last writer of r); A (any alphabet word that does not write r); clobbers; CBRANCH r taken once -> the code of A is
+	// entered from the branch without passing through the writer: nothing the translator assumed between the two may matter (DESIGN.md 8.13)
+	{ std::vector<Word> al = alphabet(); int ai = 0;
+	  for (const Word& a0 : al) { ++ai; if (optab().type_of[a0.op] == (int)IT::CBRANCH) continue;
+		for (int r : { 1, 6 }) for (int cond : { 0, 15 }) {
+			Word A = a0; if ((A.dst & 7) == r) A.dst = (uint8_t)((A.dst & 0xF8) | ((r + 1) & 7)); if (optab().type_of[A.op] == (int)IT::ISWAP_R && (A.src & 7) == r) A.src = (uint8_t)((r + 2) & 7);
+			NamedProg p; p.name = "entry:r" + std::to_string(r) + ":cond=" + std::to_string(cond) + ":word=" + std::to_string(ai);
+			for (int v = 0; v < 2; ++v) { int S = prog_size(v + 1); std::vector<Word>& w = p.w[v]; w.assign((size_t)S, filler());
+				w[0] = W(IT::IMUL_R, r, r, 0, 0); w[1] = W(IT::IXOR_R, r, r, 0, 0xFFu << (cond + 8)); w[2] = A;
+				w[3] = W(IT::IMULH_R, (r + 2) & 7, (r + 3) & 7, 0, 0); w[4] = W(IT::ISMULH_M, (r + 3) & 7, (r + 5) & 7, 0x01, 0x100); w[5] = W(IT::ISTORE, (r + 1) & 7, (r + 2) & 7, 0x01, 0x1238);
+				w[6] = W(IT::CBRANCH, r, 0, cond << 4, 0); w[7] = W(IT::IADD_RS, (r + 1) & 7, (r + 3) & 7, 0, 0); }
+			out.push_back(p);
+		} } }
 	// exactly k effective IMUL_RCP (12 literal registers, then ldr-literal form)
 	for (int k : { 0, 1, 2, 3, 4, 5, 6, 7, 8, 9, 10, 11, 12, 13, 14, 64, 65, 255, 256, 384 }) {
 		NamedProg p; p.name = "imul_rcp-count:k=" + std::to_string(k);
@@ -208,6 +226,7 @@ inline std::vector<NamedProg> family_c() {
 inline bool build_c(const Env& e, CaseSpec& c, const NamedProg& p) {
 	const std::vector<Word>& w = p.w[c.version - 1]; if (w.empty()) return false;
 	blank(e, c); for (size_t i = 0; i < w.size(); ++i) put(c.prog, (int)i, w[i]);
+	mirror_tail(c.prog, c.version);
 	return true;
 }
 
